@@ -161,9 +161,118 @@ func (a *eofAnalysis) may(fn *ssa.Function, v ssa.Value, at ssa.Instruction, see
 		if st := reachingStore(fn, x); st != nil {
 			return a.may(fn, st.Val, st, seen)
 		}
+		// several stores may reach the load: judge each under the branch facts every path from it to the load must pass
+		if rs := reachingStoresWithFacts(fn, x); len(rs) > 0 {
+			for _, r := range rs {
+				if a.mayUnder(fn, r.st.Val, r.st, r.facts, seen) {
+					return true
+				}
+			}
+			return false
+		}
 		return true
 	}
 	return true
+}
+
+type storeWithFacts struct {
+	st    *ssa.Store
+	facts []Fact
+}
+
+// reachingStoresWithFacts: every store to the location of ld that can reach it without being overwritten,
+// with the facts of the If edges that all such paths traverse.
+func reachingStoresWithFacts(fn *ssa.Function, ld *ssa.UnOp) []storeWithFacts {
+	root, sel := accessPath(ld.X)
+	if sel == "" {
+		if _, ok := root.(*ssa.Alloc); !ok {
+			return nil
+		}
+	}
+	isWriter := func(x ssa.Instruction) bool {
+		if s2, ok := x.(*ssa.Store); ok {
+			r2, sl2 := accessPath(s2.Addr)
+			return r2 == root && sl2 == sel
+		}
+		if cc, ok := x.(ssa.CallInstruction); ok {
+			if _, isAlloc := root.(*ssa.Alloc); isAlloc {
+				return false
+			}
+			com := cc.Common()
+			if f := com.StaticCallee(); f != nil && f.Signature.Recv() != nil && len(com.Args) > 0 && com.Args[0] == root {
+				return true
+			}
+		}
+		return false
+	}
+	isLd := func(x ssa.Instruction) bool { return x == ssa.Instruction(ld) }
+	var out []storeWithFacts
+	for _, b := range fn.Blocks {
+		for _, in := range b.Instrs {
+			st, ok := in.(*ssa.Store)
+			if !ok || !isWriter(st) {
+				continue
+			}
+			other := func(x ssa.Instruction) bool { return x != ssa.Instruction(st) && isWriter(x) }
+			reach, _, _ := PathQuery{Start: st, Target: isLd, Barrier: other}.Find(fn)
+			if !reach {
+				continue
+			}
+			// a call writer between would make the value unknown: give up
+			sw := storeWithFacts{st: st}
+			for _, a := range fn.Blocks {
+				if len(a.Succs) != 2 || a.Succs[0] == a.Succs[1] {
+					continue
+				}
+				for _, s := range a.Succs {
+					br, ok := edgeCond(a, s)
+					if !ok {
+						continue
+					}
+					f, ok := branchFact(br)
+					if !ok {
+						continue
+					}
+					// is the edge a->s unavoidable on the way from st to ld?
+					aa, ss := a, s
+					without, _, _ := PathQuery{Start: st, Target: isLd, Barrier: other, EdgeOK: func(x, y *ssa.BasicBlock) bool { return !(x == aa && y == ss) }}.Find(fn)
+					if !without {
+						sw.facts = append(sw.facts, f)
+					}
+				}
+			}
+			out = append(out, sw)
+		}
+	}
+	return out
+}
+
+// mayUnder: may v be io.EOF given extra facts (about values computed before the store)?
+func (a *eofAnalysis) mayUnder(fn *ssa.Function, v ssa.Value, at ssa.Instruction, facts []Fact, seen map[eofKey]bool) bool {
+	for _, f := range facts {
+		if f.Y == nil {
+			continue
+		}
+		for _, pair := range [][2]ssa.Value{{f.X, f.Y}, {f.Y, f.X}} {
+			subj, other := pair[0], pair[1]
+			if subj != v {
+				// the fact may be about a value of which v is a phi input or the same source
+				continue
+			}
+			if f.Op == token.NEQ && isSentinel(other, "io", "EOF") {
+				return false
+			}
+			if f.Op == token.EQL {
+				if isNil(other) {
+					return false
+				}
+				if g := globalLoad(other); g != nil && !(g.Pkg.Pkg.Path() == "io" && g.Name() == "EOF") {
+					return false
+				}
+			}
+		}
+	}
+	return a.may(fn, v, at, seen)
 }
 
 // callMay: may result idx of call c be io.EOF?
